@@ -159,6 +159,15 @@ type retObs struct {
 	Stuck   bool   `json:"stuck"`
 }
 
+// refObs is the observation of the same scenario without any chunking (one read,
+// one write): the reference of property C08.
+type refObs struct {
+	Has  bool          `json:"has"`
+	Disp []dispatchObs `json:"disp"`
+	Cl   clientObs     `json:"cl"`
+	Ret  retObs        `json:"ret"`
+}
+
 type observation struct {
 	SID  string        `json:"sid"`
 	Ev   string        `json:"ev"`
@@ -166,5 +175,6 @@ type observation struct {
 	Disp []dispatchObs `json:"disp"`
 	Cl   clientObs     `json:"cl"`
 	Ret  retObs        `json:"ret"`
+	Ref  refObs        `json:"ref"`
 	Note string        `json:"note"`
 }
